@@ -12,6 +12,9 @@ while read name harnesses; do
 done <<'LIST'
 C01-1 k_decimal_try_add_digit
 C01-2 e_owned_load_then_parse
+C01-3 u_error_classify
+C01-4 k_parse_exponent_n8
+C01-5 m_depth_enum
 C02-1 b_skip_number_w30
 C02-2 s_float_fast_bounds
 C02-3 b_skip_number_w30
@@ -49,6 +52,9 @@ C10-4 b_skip_string_unchecked_w27
 C10-5 u_skip_string_unchecked_n8
 C12-1 b_skip_string_unchecked_w27
 C12-2 u_skip_string_n8
+C12-3 m_array_iter_latch m_object_iter_latch
+C12-4 m_entry_lazy_n7
+C12-5 b_skip_string_unchecked_w27
 C13-1 u_owned_mut_probe_keeps_raw
 C13-2 b_skip_string_unchecked_tail_w27
 C13-3 u_skip_string_n8
@@ -61,8 +67,14 @@ C14-4 m_entry_lazy_n7
 C14-5 b_skip_number_w30
 C17-1 k_simd_i8x32
 C17-2 x_arch_nonspace_native
+C17-3 x_native_u8x32
+C17-4 x_arch_nonspace_fallback
+C17-5 s_simd_str2int
 C18-1 e_lazy_parse_from_frees
 C18-2 e_owned_load1
+C18-3 e_lazy_parse_from
+C18-4 e_owned_load_then_parse
+C18-5 e_owned_load1
 C20-1 u_error_syntax_n6
 C20-2 m_object_iter_latch
 revert-F1a m_depth_seq
